@@ -10,6 +10,7 @@ import DiskfsModel.Proofs.GptWhole
 import DiskfsModel.Proofs.GptValid
 import DiskfsModel.Proofs.GptIdem
 import DiskfsModel.Proofs.MbrTable
+import DiskfsModel.Proofs.MbrRead
 import DiskfsModel.Generated.GptCodec
 namespace Diskfs.Gpt.C02
 
@@ -260,6 +261,63 @@ theorem mbr_read_write_exact (d : Dev) (a b : Mbr.Part) (devSize : Nat) (hdev : 
 theorem mbr_write_frame (d : Dev) (ps : List Mbr.Part) (i : Nat) (hi : i < 446 ∨ 512 ≤ i) :
     applyWrs d (Mbr.write ps) i = d i :=
   Mbr.write_frame d ps i hi
+
+/-! ### MBR at the Table level (Model/MbrTable.lean: Table.Write as it is now — it refuses more than four
+    partitions — and mbr.Read with the caller's sector sizes stamped; every Go slice expression of
+    tableFromBytes / partitionFromBytes modelled with its panic) -/
+
+/-- whatever Table.Write accepts, over ANY prior device content, reads back through mbr.Read — called with any
+    sector sizes, zero and negative included — as the four slots filled by position, stamped with the sizes
+    Read was given (512 when not positive) -/
+theorem mbr_table_read_write (d : Dev) (t : Mbr.Table) (ws : List Wr) (devSize : Nat) (lbs pbs : Int) (hdev : 512 ≤ devSize)
+    (hwf : ∀ p ∈ t.parts, Mbr.PartWF p) (hw : Mbr.writeT t = some ws) :
+    (Mbr.readT (applyWrs d ws) devSize lbs pbs).1 =
+      .ok { parts := [Mbr.normSlot t.parts 0, Mbr.normSlot t.parts 1, Mbr.normSlot t.parts 2, Mbr.normSlot t.parts 3],
+            lss := Mbr.stamp lbs, pss := Mbr.stamp pbs } :=
+  Mbr.readT_writeT d t ws devSize lbs pbs hdev hwf hw
+
+/-- ROUND TRIP decode (encode t) = t for EVERY valid table: four storable entries numbered 1..4 (what mbr.Read
+    itself produces: `mbr_read_canonical`), any positive sector sizes (512, 4096, …): Write accepts it and Read with
+    the table's sector sizes returns exactly the table — partitions with all CHS bytes, boot flags, type bytes,
+    32-bit starts and sizes, and both sector sizes — over any prior device content -/
+theorem mbr_table_round_trip (d : Dev) (t : Mbr.Table) (devSize : Nat) (hdev : 512 ≤ devSize)
+    (hwf : ∀ p ∈ t.parts, Mbr.PartWF p) (hc : Mbr.Canonical t) (hl : 0 < t.lss) (hp : 0 < t.pss) :
+    ∃ ws, Mbr.writeT t = some ws ∧ (Mbr.readT (applyWrs d ws) devSize t.lss t.pss).1 = .ok t :=
+  Mbr.readT_writeT_exact d t devSize hdev hwf hc hl hp
+
+/-- every table mbr.Read returns is of that shape: four slots numbered 1..4 carrying the stamped sector sizes -/
+theorem mbr_read_canonical (d : Dev) (devSize : Nat) (lbs pbs : Int) (t : Mbr.Table)
+    (h : (Mbr.readT d devSize lbs pbs).1 = .ok t) : Mbr.Canonical t ∧ t.lss = Mbr.stamp lbs ∧ t.pss = Mbr.stamp pbs :=
+  Mbr.readT_canonical d devSize lbs pbs t h
+
+/-- FRAME at the Table level: an accepted Write changes bytes 446..511 only (boot code 0..439, disk signature
+    440..443 and everything from byte 512 on keep their content); a refused Write (more than four partitions)
+    writes nothing at all -/
+theorem mbr_table_write_frame (d : Dev) (t : Mbr.Table) (ws : List Wr) (hw : Mbr.writeT t = some ws) (i : Nat)
+    (hi : i < 446 ∨ 512 ≤ i) : applyWrs d ws i = d i :=
+  Mbr.writeT_frame d t ws hw i hi
+
+theorem mbr_table_write_refuses (t : Mbr.Table) (h : 4 < t.parts.length) : Mbr.writeT t = none :=
+  Mbr.writeT_refuses t h
+
+/-- mbr.Read written with Go's slice / index panics is the total decoder the theorems above are about -/
+theorem mbr_read_is_total_decoder (d : Dev) (devSize : Nat) (lbs pbs : Int) :
+    Mbr.readT d devSize lbs pbs =
+      (match (Mbr.read d devSize).1 with
+        | some ps => .ok { parts := ps, lss := Mbr.stamp lbs, pss := Mbr.stamp pbs }
+        | none => .err false, [512]) :=
+  Mbr.readT_eq d devSize lbs pbs
+
+-- non-vacuity: a canonical table of storable entries on 4096-byte sectors
+def exMbr : Mbr.Table :=
+  { parts := [⟨1, true, 0x83, 2048, 4096, [1, 2, 3, 4, 5, 6]⟩, ⟨2, false, 0x0c, 4294967295, 4294967295, [0, 0, 0, 0, 0, 0]⟩,
+              ⟨3, false, 0, 0, 0, [0, 0, 0, 0, 0, 0]⟩, ⟨4, false, 0xff, 7, 9, [255, 255, 255, 255, 255, 255]⟩],
+    lss := 4096, pss := 512 }
+example : Mbr.Canonical exMbr := ⟨_, _, _, _, rfl, rfl, rfl, rfl, rfl⟩
+example : ∀ p ∈ exMbr.parts, Mbr.PartWF p := by
+  intro p hp
+  simp only [exMbr, List.mem_cons, List.not_mem_nil, or_false] at hp
+  rcases hp with h | h | h | h <;> subst h <;> exact ⟨by decide, by decide, by decide, by decide⟩
 
 /-- as found: a name of at most 36 runes but more than 36 UTF-16 units makes `toBytes` panic
     (19 runes outside the BMP); repaired it is refused with an error -/
